@@ -100,6 +100,7 @@ def const(c):
 #   tt / tt:n      TT-tensor with own / shared ('n') mode-size symbols
 #   tt2q           QTT-tensor: 2*d cores of mode size 2
 #   ttlist         list of two TT-tensors with shared mode sizes
+#   ttlist1        list of ONE TT-tensor
 #   i[d] I[m,d] f[m] f[m,d] f[m,n] ...   int / float arrays (names = symbols,
 #                  'd' = the concrete number of cores)
 #   dense          float array [n0, ..., n_{d-1}]
@@ -114,8 +115,14 @@ def L(x):
 TT_UN = dict(Y='tt')
 ENTRY = {
     'act_many.add_many': [dict(Y_many='ttlist'),
-                          dict(Y_many='ttlist', e='rel', r='int:rmax')],
-    'act_many.outer_many': [dict(Y_many='ttlist')],
+                          dict(Y_many='ttlist', e='rel', r='int:rmax'),
+                          # the periodic rounding fires at the last summand
+                          dict(Y_many='ttlist', e='rel', r='int:rmax',
+                               trunc_freq=L(1)),
+                          dict(Y_many='ttlist1')],
+    'act_many.outer_many': [dict(Y_many='ttlist'),
+                            # a list of one tensor: the result is still new
+                            dict(Y_many='ttlist1')],
     'act_one.copy': [dict(Y='tt'), dict(Y='f[m,n]'), dict(Y='num')],
     'act_one.interface': [dict(Y='tt'),
                           dict(Y='tt', i='i[d]', ltr=L(True), norm=L(None)),
@@ -383,9 +390,9 @@ def build(spec, name, d, label=True):
         for c in t.items:
             c.dims = (c.dims[0], Poly.const(2), c.dims[2])
         return t
-    if spec == 'ttlist':
+    if spec in ('ttlist', 'ttlist1'):
         lst = LIST([tt('%s[%d]' % (name, j), d, nsym='n', label=False)
-                    for j in range(2)])
+                    for j in range(2 if spec == 'ttlist' else 1)])
         if label:
             lst.label = ('P', name)
             for j, t in enumerate(lst.items):
